@@ -366,7 +366,7 @@ func (ex *Explorer) collectPath(in *Interp) {
 			r.RandOutcome = p.status + " " + p.statusMsg
 		}
 	}
-	if in.thread != nil && in.thread.trace != nil {
+	if in.thread != nil && in.thread.trace != nil && in.thread.trace.Status != "" {
 		r.Traces = append(r.Traces, in.thread.trace)
 	}
 	if in.steps > r.MaxStepsPath {
